@@ -3,6 +3,7 @@ package gen
 import (
 	"fmt"
 	"os"
+	"sort"
 
 	"google.golang.org/protobuf/proto"
 	"google.golang.org/protobuf/reflect/protodesc"
@@ -12,6 +13,7 @@ import (
 	"google.golang.org/protobuf/types/dynamicpb"
 
 	// Link the test-proto corpus (registers with the global registries).
+	_ "google.golang.org/protobuf/internal/testprotos/editionsfuzztest"
 	_ "google.golang.org/protobuf/internal/testprotos/enums"
 	_ "google.golang.org/protobuf/internal/testprotos/lazy"
 	_ "google.golang.org/protobuf/internal/testprotos/lazy/lazy_hybrid"
@@ -114,3 +116,105 @@ func Type(name string) protoreflect.MessageType {
 
 // NewMsg returns a new empty message of the named type.
 func NewMsg(name string) proto.Message { return Type(name).New().Interface() }
+
+var (
+	rebuiltFiles *protoregistry.Files
+	rebuiltExts  map[protoreflect.FullName][]protoreflect.ExtensionType
+)
+
+func rebuildAll() {
+	if rebuiltFiles != nil {
+		return
+	}
+	var fds []protoreflect.FileDescriptor
+	protoregistry.GlobalFiles.RangeFiles(func(fd protoreflect.FileDescriptor) bool { fds = append(fds, fd); return true })
+	sort.Slice(fds, func(i, j int) bool { return fds[i].Path() < fds[j].Path() })
+	// file by file, dependencies first; a file protodesc refuses (MessageSet without the protolegacy
+	// tag) is left out together with the files that need it
+	reg := new(protoregistry.Files)
+	done := map[string]bool{}
+	var build func(fd protoreflect.FileDescriptor)
+	build = func(fd protoreflect.FileDescriptor) {
+		if done[fd.Path()] {
+			return
+		}
+		done[fd.Path()] = true
+		imps := fd.Imports()
+		for i := 0; i < imps.Len(); i++ {
+			if !imps.Get(i).IsPlaceholder() {
+				build(imps.Get(i).FileDescriptor)
+			}
+		}
+		nf, err := protodesc.NewFile(protodesc.ToFileDescriptorProto(fd), reg)
+		if err != nil {
+			return
+		}
+		reg.RegisterFile(nf)
+	}
+	for _, fd := range fds {
+		build(fd)
+	}
+	rebuiltFiles = reg
+	rebuiltExts = map[protoreflect.FullName][]protoreflect.ExtensionType{}
+	var walkMsgs func(ms protoreflect.MessageDescriptors)
+	addExts := func(xs protoreflect.ExtensionDescriptors) {
+		for i := 0; i < xs.Len(); i++ {
+			xd := xs.Get(i)
+			if xd.ContainingMessage().IsPlaceholder() {
+				continue
+			}
+			n := xd.ContainingMessage().FullName()
+			rebuiltExts[n] = append(rebuiltExts[n], dynamicpb.NewExtensionType(xd))
+		}
+	}
+	walkMsgs = func(ms protoreflect.MessageDescriptors) {
+		for i := 0; i < ms.Len(); i++ {
+			addExts(ms.Get(i).Extensions())
+			walkMsgs(ms.Get(i).Messages())
+		}
+	}
+	for _, f := range fds {
+		rf, err := reg.FindFileByPath(f.Path())
+		if err != nil {
+			continue
+		}
+		addExts(rf.Extensions())
+		walkMsgs(rf.Messages())
+	}
+	for n := range rebuiltExts {
+		xs := rebuiltExts[n]
+		sort.Slice(xs, func(i, j int) bool { return xs[i].TypeDescriptor().Number() < xs[j].TypeDescriptor().Number() })
+	}
+}
+
+// Rebuilt returns the descriptor of the named linked message type as rebuilt at run time by
+// reflect/protodesc from FileDescriptorProtos (the path a program takes that loads a
+// FileDescriptorSet and works with dynamicpb), instead of the one internal/filedesc built from the
+// generated code's raw descriptor. The two packages resolve editions features separately. All
+// linked files are rebuilt together, once, so that messages and the extensions that extend them
+// refer to each other. nil if the type's file could not be rebuilt.
+func Rebuilt(name string) protoreflect.MessageDescriptor {
+	rebuildAll()
+	d, err := rebuiltFiles.FindDescriptorByName(protoreflect.FullName(name))
+	if err != nil {
+		return nil
+	}
+	return d.(protoreflect.MessageDescriptor)
+}
+
+// ExtensionsOf lists the extension types that extend md, ordered by number: the linked ones for a
+// linked descriptor, dynamicpb extension types over rebuilt extension descriptors for a rebuilt one.
+func ExtensionsOf(md protoreflect.MessageDescriptor) []protoreflect.ExtensionType {
+	if rebuiltFiles != nil {
+		if d, err := rebuiltFiles.FindDescriptorByName(md.FullName()); err == nil && d == protoreflect.Descriptor(md) {
+			return rebuiltExts[md.FullName()]
+		}
+	}
+	var xts []protoreflect.ExtensionType
+	protoregistry.GlobalTypes.RangeExtensionsByMessage(md.FullName(), func(xt protoreflect.ExtensionType) bool {
+		xts = append(xts, xt)
+		return true
+	})
+	sort.Slice(xts, func(i, j int) bool { return xts[i].TypeDescriptor().Number() < xts[j].TypeDescriptor().Number() })
+	return xts
+}
